@@ -1938,6 +1938,14 @@ func (ff *FuncFacts) assign(x *ast.AssignStmt, st *State) *State {
 		}
 		rt := rts[i]
 		if rt.mentions(lt.String()) {
+			// x = f(x): only the link to this site's result survives
+			if len(x.Rhs) == len(x.Lhs) && (lt.K == 'v' || lt.K == 'f') {
+				if call, ok := unparen(x.Rhs[i]).(*ast.CallExpr); ok {
+					if tv, isType := info.Types[call.Fun]; !isType || !tv.IsType() {
+						st = st.add(mkFact(true, "eq", lt, &Term{K: 'r', Name: "res0", Pos: call.Lparen}))
+					}
+				}
+			}
 			continue
 		}
 		// a single-value call result gets a site term too, so that facts
